@@ -2,6 +2,7 @@
 From Coq Require Import List NArith ZArith String Bool.
 From DT Require Import GenStatus GenEvent GenMsgType FsmTypes GenFsm Fsm Machine View Caches Msg Node
      FsmFacts NodeFacts C04Proofs.
+From DT Require UpdateProofs.
 Import ListNotations.
 
 (* a validation response reports acceptance precisely when validation succeeded AND accepted;
@@ -60,3 +61,18 @@ Theorem C04_new_request_reply :
     end.
 Proof. exact new_request_reply. Qed.
 Print Assumptions C04_new_request_reply.
+
+(* an existing channel that is re-validated and rejected: the rejection is recorded (the channel
+   fails), the initiator is told, the transport channel is closed -- in this order and nothing else,
+   whatever the pause-implying fields of the result say *)
+Theorem C04_rejecting_update_closes_transport :
+  forall k c vr, vr_accepted vr = false ->
+    UpdateProofs.uv_body k c vr =
+    (r <- record_rejected k vr ;;
+     if negb (ret_ok r) then Ret r
+     else
+       let mt := if status_eqb (c_status c) Finalizing then CompleteMessage else VoucherResultMessage in
+       ok <- exec (INetSend (k_init (chid_of c)) (validation_result_response mt (c_tid c) vr false (leave_paused vr c))) ;;
+       if negb ok then Ret ROther else exec (ITransport (TClose (chid_of c))) ;;; Ret ROk).
+Proof. exact UpdateProofs.rejecting_update_closes_transport. Qed.
+Print Assumptions C04_rejecting_update_closes_transport.
